@@ -32,6 +32,7 @@ type Thread struct {
 	blockN  int
 	blockOp string
 	killed  bool
+	low     bool // demoted: runs only when no thread of normal priority can (Config.Demote)
 }
 
 type timer struct {
@@ -60,6 +61,12 @@ type Config struct {
 	MaxSteps    int   // step horizon (default 400000)
 	IdleHorizon int64 // virtual ns without Progress() while a root is running => stall (0 = off)
 	TimerFirst  bool  // offer "fire earliest timer now" as a cost-1 alternative at scheduling points
+	// Demote adds the deviation "demote the running thread" (see schedule).
+	Demote bool
+	// FlatCosts makes a switch to *any* other enabled thread cost 1 (preemption bounding)
+	// instead of its distance in the round-robin order (delay bounding): more executions per
+	// bound, but no thread is out of reach of a single deviation.
+	FlatCosts bool
 	// TimerTies makes the firing order of timers due at the same instant a choice.
 	TimerTies bool
 	// AtomicPoints makes sync/atomic operations scheduling points.
@@ -98,14 +105,14 @@ type Exec struct {
 	Events   []Event
 	KeepEvts bool
 
-	Outcome  string // ok | panic | deadlock | stall | horizon | exit | diverged
-	Detail   string // panic value / blocked sites / exit code
-	PanicVal any
+	Outcome    string // ok | panic | deadlock | stall | horizon | exit | diverged
+	Detail     string // panic value / blocked sites / exit code
+	PanicVal   any
 	PanicStack string
-	Blocked  []string // blocking sites at deadlock/stall (sorted)
-	ExitCode int
-	Diverged string
-	Values   map[string]any // harness scratch (results of root threads etc.)
+	Blocked    []string // blocking sites at deadlock/stall (sorted)
+	ExitCode   int
+	Diverged   string
+	Values     map[string]any // harness scratch (results of root threads etc.)
 }
 
 // X is the execution in progress (one at a time per process). Outside executions it is a
@@ -355,6 +362,20 @@ func (x *Exec) schedule(self *Thread, selfDone bool, label string) {
 				opts = append(opts, t)
 			}
 		}
+		nNormal := len(opts)
+		if x.cfg.Demote {
+			// demoted threads come after every thread of normal priority
+			var normal, low []*Thread
+			for _, t := range opts {
+				if t.low {
+					low = append(low, t)
+				} else {
+					normal = append(normal, t)
+				}
+			}
+			nNormal = len(normal)
+			opts = append(normal, low...)
+		}
 		if len(opts) == 0 {
 			if x.fireTimer() {
 				continue
@@ -363,26 +384,44 @@ func (x *Exec) schedule(self *Thread, selfDone bool, label string) {
 			x.park(self)
 		}
 		timerOpt := x.cfg.TimerFirst && x.hasTimer()
+		// "demote the running thread": from here on it runs only when nothing else can, until a
+		// later deviation picks it explicitly. One such deviation keeps a thread out of the way
+		// across any number of blocking operations of the others - the plain delay only skips it once.
+		demoteOpt := x.cfg.Demote && selfEnabled && !self.low && nNormal > 1
 		idx := 0
-		nopt := len(opts)
+		nthreads := len(opts)
+		nopt := nthreads
 		if timerOpt {
+			nopt++
+		}
+		if demoteOpt {
 			nopt++
 		}
 		if nopt > 1 {
 			costs := make([]int, nopt)
 			for i := range opts {
 				costs[i] = i
+				if x.cfg.FlatCosts && i > 1 {
+					costs[i] = 1
+				}
 			}
-			if timerOpt {
-				costs[nopt-1] = 1
+			for i := nthreads; i < nopt; i++ {
+				costs[i] = 1
 			}
 			idx = x.choose(costs, label)
 		}
-		if timerOpt && idx == nopt-1 {
+		if timerOpt && idx == nthreads {
 			x.fireTimer()
 			continue
 		}
+		if demoteOpt && idx == nopt-1 {
+			self.low = true
+			continue // re-evaluate: the first thread of normal priority is now the default
+		}
 		next := opts[idx]
+		if idx > 0 && next.low {
+			next.low = false // picked explicitly: back to normal priority
+		}
 		if next == self {
 			self.pred = nil
 			return
@@ -651,10 +690,10 @@ func (x *Exec) Cost() int {
 	return c
 }
 
-func (x *Exec) Steps() int     { return x.steps }
-func (x *Exec) Clock() int64   { return x.clock }
-func (x *Exec) NThreads() int  { return len(x.threads) }
-func (x *Exec) NPoints() int   { return len(x.choices) }
+func (x *Exec) Steps() int    { return x.steps }
+func (x *Exec) Clock() int64  { return x.clock }
+func (x *Exec) NThreads() int { return len(x.threads) }
+func (x *Exec) NPoints() int  { return len(x.choices) }
 func (x *Exec) objID(p uintptr) int {
 	if id, ok := x.objIDs[p]; ok {
 		return id
